@@ -203,7 +203,10 @@ class Program:
         yield "all helpers", self._inlined["*"]
         if len(self._inlined["names"]) < 2:
             return
+        from .inline import ESTABLISHED_HELPERS
         for nm in self._inlined["names"]:
+            if nm in ESTABLISHED_HELPERS:
+                continue  # the rules are calibrated on these helpers as written; a view that folds only one of them decides nothing new
             if nm not in self._inlined:
                 self._inlined[nm] = Program(self.root, transform=functools.partial(inline_module, only={nm}))
             yield nm, self._inlined[nm]
